@@ -27,6 +27,8 @@ def posix_wd(y):
     """POSIX weekday (0 = Sunday) of January 1 of year y, from the rata-die oracle"""
     return fmod(add(cal.weekday(y, 1, 1), 1), 7)
 
+SEAM = ("seam: the generated years reach the non-negative half of the time line, so that Load appends no 2^31-1 sentinel behind them "
+        "(behind it the 400-year shift of BreakTime/MakeTime would read years the rule did not generate)")
 YEAR_LIM = (1 << 59) // 31556952 + 500          # |year| of any recorded transition (|t| <= 2^59) plus the 401 generated years
 DAY = 86400
 # The year loop is decided over three uninterpreted functions of the year, J(y) = SEC(y,1,1), W(y) = POSIX weekday of January 1,
@@ -54,10 +56,11 @@ def job_calendar_steps():
         ex.prove(st, eq(posix_wd(Y), fmod(add(fmod(add(fdiv(J(Y), DAY), 3), 7), 1), 7)), "weekday of January 1 read from its ordinal (1970-01-01 is a Thursday) is the rata-die weekday")
     return ex.execute(h)
 
-def job_extend(N=2, T=2):
+def job_extend(N=1, T=2):
     mod = tz.module()
     ex = symex.Executor(mod, solver=smt.Solver("cvc5", 120000, logic="QF_UFNIA", log=os.environ.get("VERIF_SOLVER_LOG")), tlimit_ms=120000)
     tz.install_contracts(ex)
+    ex.stop_on_fail = False          # the seam obligation is a recorded finding: it must not cut the exploration of the loop short
     def F(pat):
         """mangled name of the one function (defined or only declared in the wrapper's IR) whose demangled name matches"""
         try: return build.find_func(mod, pat)
@@ -74,7 +77,7 @@ def job_extend(N=2, T=2):
     # IsLeap(y) is leap01(y) here; job_isleap decides IsLeap's IR against the oracle for every int64 year
     ex.contracts[F(r"anonymous namespace\)::IsLeap\(")] = lambda ex, st, a: eq(Lf(a[0]), 1)
     def h(ex, st):
-        z = tz.build_zone(ex, st, N, T)
+        z = tz.build_zone(ex, st, N, T, second_half=False)
         zo = z.obj.obj
         last_time = z.unix[N - 1]; last_off = z.pre_off[N]
         std_off = ex.input("std_offset", 64, -90000, 90000); dst_off = ex.input("dst_offset", 64, -90000, 90000)
@@ -185,6 +188,10 @@ def job_extend(N=2, T=2):
             check_pushes(ex, st, "final year")
             ex.prove(st, eq(st.user["iter_year"], add(LY0, 401)), "ExtendTransitions stops exactly after the 401st year beyond the last recorded one")
             ex.prove(st, eq(ex.load(st, Ptr(zo, 160), I8), 1), "extended_ is set when the rule was expanded")
+            # the seam the 400-year shift relies on: the table must END with the generated years.  TimeZoneInfo::Load continues with
+            # `if (transitions_.back().unix_time < 0) { append a transition at 2^31-1 }`, so the last generated instant must not be negative
+            p = st.user["pushed"]
+            if p: ex.prove(st, ge(p[-1][0], 0), SEAM)
         ex.call(st, ET, [z.obj], k)
     return ex.execute(h)
 
